@@ -11,13 +11,13 @@ Definition contrib (fuel : nat) (fs : fsys) (source : bool) (p : path) : list pa
   match kind_of fs p with
   | KNone => []
   | KFile => if is_slice_file p then [p] else []
-  | KDir => if source then [] else fst (walk fuel fs p)
+  | KDir => if source then [] else fst (walk fuel [] fs p)
   end.
 Definition contrib_diags (fuel : nat) (fs : fsys) (source : bool) (p : path) : list fdiag :=
   match kind_of fs p with
   | KNone => [DNotFound p]
   | KFile => if is_slice_file p then [] else [DNotSlice p]
-  | KDir => if source then [DDirAsSource p] else snd (walk fuel fs p)
+  | KDir => if source then [DDirAsSource p] else snd (walk fuel [] fs p)
   end.
 Definition canonize (fs : fsys) (source : bool) (p : path) : list fpath :=
   match canon_of fs p with Some id => [{| fp_path := p; fp_id := id; fp_source := source |}] | None => [] end.
